@@ -292,6 +292,11 @@ class SeqProp:
         import json
         r = json.load(open(path, encoding="utf-8"))
         c = Case(r["case"]["ops"], r["case"].get("meta"), r["case"].get("label", ""))
+        if not c.ops and c.label == "oracle-only scenario":
+            d = self.run_extra(dict(c.meta or {}))
+            print("scenario:", c.meta)
+            print("oracle:  ", d)
+            return 1 if d is not None else 0
         io = self.safe_impl(c)
         mo = self.run_model([c])[0] if c.ops else []
         print("ops:     ", c.ops)
